@@ -25,6 +25,7 @@ def plan(prop, tier, seed):
         sh.append({"kind": "bfs", "policy": "plru", "assoc": a, "shard": 100 + a})
     sh += [{"kind": "random", "n": 40 if q else 600, "shard": i} for i in range(2 if q else 8)]
     sh += [{"engine": "cache", "kind": "hist", "n": 80 if q else 1500, "ops": 150, "shard": i} for i in range(6 if q else 16)]
+    sh += [{"engine": "cache", "kind": "bfs", "depth": 4 if q else 6, "cfgi": i, "shard": i, "acct": True} for i in (1, 2, 6, 7)]
     return sh
 
 
